@@ -1402,7 +1402,16 @@ pub const IGN_STMTS: &[(&str, Dial, bool)] = &[
     ("return   a,b", Dial::Core, true),
 ];
 pub const IGN_TAILS: &[&str] = &["", ";", " -- t", "; -- t", " ;"];
-pub const IGN_DIRECTIVES: &[&str] = &["-- stylua: ignore", "--stylua: ignore", "--[[ stylua: ignore ]]", "-- stylua: ignore  "];
+/// (a directive counts wherever it stands among the comments in front of the node: other comments may follow or precede it)
+pub const IGN_DIRECTIVES: &[&str] = &[
+    "-- stylua: ignore",
+    "--stylua: ignore",
+    "--[[ stylua: ignore ]]",
+    "-- stylua: ignore  ",
+    "-- stylua: ignore\n-- another comment",
+    "-- another comment\n-- stylua: ignore",
+    "-- stylua: ignore\n--[[ block ]]",
+];
 
 fn defuse(text: &str) -> String {
     text.replace("stylua: ignore", "stylua: ignorX")
@@ -1438,7 +1447,7 @@ pub fn f_ign(thorough: bool) -> Vec<Case> {
                             for slot in 0..3 {
                                 if slot == pos {
                                     text.push_str(ind);
-                                    text.push_str(dir);
+                                    text.push_str(&dir.replace('\n', &format!("\n{}", ind)));
                                     text.push('\n');
                                     text.push_str(ind);
                                     let a = text.len();
